@@ -49,4 +49,37 @@ CLAIMS = {
     note="Trusted: the dump (harness walks is_weekday/is_holiday over all 84371 dates), the docstring/CSV parsers, the "
          "transcription of the pandas rule scripts into Lean (specification), Lean kernel (GMP arithmetic in decide +kernel).",
     technique="Lean 4 kernel decision (decide +kernel) over tables regenerated from the running code"),
+ "C03": dict(
+    text="Lean 4 theorems over the list-level model of Vars::vars_cmp/to_new_vars/to_union_vars and the Dual +,-,*,== "
+         "implementations, for every pair of shape-valid numbers over any commutative ring and every pointer-equality "
+         "flag consistent with the invariant: results are well-formed and carry exactly the union of names (C03_wf), act "
+         "name by name (C03_hom), are independent of layout, zero-padding and storage sharing (C03_layout_irrelevant, "
+         "C03_ptr_irrelevant), equality = agreement per name (C03_eq). Second-order Hessian part: correspondence only "
+         "(exhaustive over layouts) - partial. Correspondence is exhaustive over layouts of a 3/4-name pool, bit-exact.",
+    design_ref="DESIGN.md §3 C03",
+    note=_corr + "f64 rounding modelled (theorems over rings; exact dyadic inputs in the run); Dual2 name-indexed Hessian theorems not yet proved.",
+    technique="Lean 4 proof (list induction, name-indexed denotation refinement) + exhaustive-layout differential correspondence"),
+ "C17": dict(
+    text="Lean 4 theorems for every shape-valid number and every distinct request list: gradient1 = map of per-name "
+         "derivatives in request order on both code paths (C17_gradient1, C17_gradient1_dual2), gradient2 entry (i,j) = "
+         "2 x stored half-Hessian per name pair (C17_gradient2), manifold elements (C17_manifold). The manifold product "
+         "rule is checked by a model-free oracle on the implementation (it exposed a genuine defect, since repaired).",
+    design_ref="DESIGN.md §3 C17",
+    note=_corr + "product-rule statement not yet a theorem (oracle only).",
+    technique="Lean 4 proof over list model + exhaustive request-order correspondence + model-free oracle"),
+ "C18": dict(
+    text="Lean 4 theorems for every scalar type (no algebraic law, so f64 itself): the 3x3 set_order table and value "
+         "preservation (C18_set_order, C18_values_preserved, C18_names_attached), From conversions (C18_from), Number "
+         "arithmetic = contained-type arithmetic and is refused exactly for Dual/Dual2 mixes (C18_number_ops, "
+         "C18_number_ops_refusal, C18_number_cmp_refusal). Correspondence exhaustive over kind x kind x operator.",
+    design_ref="DESIGN.md §3 C18",
+    note=_corr + "refusal = panic observed through catch_unwind.",
+    technique="Lean 4 proof (case analysis, definitional) + exhaustive differential correspondence"),
+ "C19": dict(
+    text="Lean 4 theorems: comparisons depend on values only (C19_ord), abs flips value and all derivative arrays "
+         "together (C19_abs), sum = left fold from zero (C19_sum), a % b = a - trunc(a/b) b in value and per-name "
+         "derivative over any field (C19_rem, C19_rem_def, C19_rem_float), zero/one neutrality (C19_neutral).",
+    design_ref="DESIGN.md §3 C19",
+    note=_corr + "fmod vs a - trunc(a/b) b rounding for huge quotients not modelled; abs at exactly 0 follows the code's `> 0` test.",
+    technique="Lean 4 proof over list model + differential correspondence"),
 }
